@@ -7,6 +7,7 @@ import Driver.C15
 import Driver.C17
 import Driver.C20
 import Driver.C11
+import Driver.C06
 open Driver
 
 def dispatch (line : String) : String :=
@@ -16,6 +17,8 @@ def dispatch (line : String) : String :=
   | "exit" :: args => C05.exit args
   | "checks" :: args => EnableOp.checks args
   | "merge" :: args => EnableOp.merge args
+  | "npr" :: args => C06.npr args
+  | "readrange" :: args => C06.readrange args
   | "pipeline" :: args => C11.pipelineOp args
   | "monitor" :: args => C11.monitorOp args
   | "schedmon" :: args => C11.schedmonOp args
